@@ -97,6 +97,8 @@ def item_label(item):
         return f"e{item['e']}/{item.get('mode', 'serial')}"
     if "b" in item:
         return f"b{item['b']}"
+    if "n" in item:
+        return f"n{item['n']}"
     if "i" in item:
         return f"u{item['i']}/{item.get('mode', 'serial')}/{item.get('workers')}" + (f"/prior{item['prior']}" if item.get("prior") else "")
     return json.dumps(item, sort_keys=True)[:80]
